@@ -988,6 +988,7 @@ class Verifier(Interp):
         # --- init
         def inv_formula(kterm):
             env = {kname: P(INT, kterm), "_n": P(INT, n)}
+            env.update({"entry_" + k_: v_ for k_, v_ in getattr(self, "entry_env", {}).items()})
             if getattr(self, "last_enum", None) is not None:
                 env["ENUM"] = self.last_enum
             return self.spec_eval(lambda: FAnd([self.formula(c) for c in inv.invariant],
@@ -1081,8 +1082,9 @@ class Verifier(Interp):
         name = "%s#loop%d" % (self.cur_func, ordn)
 
         def inv_formula():
+            env = {"entry_" + k_: v_ for k_, v_ in getattr(self, "entry_env", {}).items()}
             return self.spec_eval(lambda: FAnd([self.formula(c) for c in inv.invariant],
-                                               [str(i) for i in range(len(inv.invariant))]), {})
+                                               [str(i) for i in range(len(inv.invariant))]), env)
         self.prove(name + ".init", inv_formula(), meta={"kind": "loop-init"})
         mods = self.assigned_names(s.body) | set(inv.modifies)
         for v in sorted(mods):
